@@ -265,6 +265,7 @@ func report(g *Gen, prop, tier, verif string, results []*funcResult, wall, loadS
 	var samples []map[string]interface{}
 	assumptions := map[string]bool{}
 	checkErrors := []string{}
+	nContractErr := 0
 	for _, fr := range results {
 		if fr.err != nil {
 			checkErrors = append(checkErrors, fr.err.Error())
@@ -326,11 +327,33 @@ func report(g *Gen, prop, tier, verif string, results []*funcResult, wall, loadS
 			assumptions["trusted contract (body not verified): "+c.Pkg+"."+c.Name] = true
 		}
 	}
-	for _, e := range checkErrors {
-		fmt.Println("CHECK-ERROR:", e)
-		exit = 2
-	}
 	os.MkdirAll(filepath.Join(outRoot(verif), "replay"), 0o755)
+	// A contract that no longer binds to the code of its function (a name it mentions is gone, a construct left the
+	// accepted subset) or that has become vacuous means: the obligations of that function, which were discharged on the
+	// unchanged tree, are not discharged any more. That is reported as a violation of the property (named obligation
+	// <function>/contract-applies), with the reason in the replay file; the CHECK-ERROR line is kept for the reader.
+	for i, e := range checkErrors {
+		fmt.Println("CHECK-ERROR:", e)
+		name := fmt.Sprintf("contract-applies#%d", i)
+		if k := strings.Index(e, " in "); strings.HasPrefix(e, "contract error in ") && k >= 0 {
+			rest := e[len("contract error in "):]
+			if j := strings.Index(rest, " ("); j >= 0 {
+				name = rest[:j] + "/contract-applies"
+			}
+		} else if strings.HasPrefix(e, "vacuity: ") {
+			rest := e[len("vacuity: "):]
+			if j := strings.Index(rest, " "); j >= 0 {
+				name = rest[:j] + "/not-vacuous"
+			}
+		}
+		rp := filepath.Join(outRoot(verif), "replay", sanitizeFile(prop+"__"+name)+".txt")
+		os.WriteFile(rp, []byte("property: "+prop+"\nfailed obligation: "+name+"\nkind: contract-applies\nverdict: the contract of this function can no longer be checked against its code, so none of its obligations is discharged\nreason: "+e+"\ncounterexample: none replayed (no-failing-input-found)\n"), 0o644)
+		fmt.Printf("VIOLATION property=%s replay=%s obligation=%s verdict=contract-error no-failing-input-found\n", prop, rp, name)
+		if exit == 0 {
+			exit = 1
+		}
+		nContractErr++
+	}
 	for _, o := range knownHit {
 		fmt.Printf("KNOWN-FINDING: property=%s %s: %s\n", prop, o.Name, known[o.Name].What)
 	}
@@ -390,7 +413,7 @@ func report(g *Gen, prop, tier, verif string, results []*funcResult, wall, loadS
 		},
 		"assumptions": as,
 		"wall_s":      round3(wall),
-		"violations":  len(failed),
+		"violations":  len(failed) + nContractErr,
 	}
 	if len(samples) == 0 {
 		ev["coverage"].(map[string]interface{})["samples"] = []interface{}{"no discharged obligation"}
